@@ -1,5 +1,6 @@
 import SieveModel.Lemmas.ReplyDecode
 import SieveModel.Lemmas.ReplyLine
+import SieveModel.Lemmas.ReplyGrammar
 /-!
 # C09 — Operation results mirror the server's status reply
 
@@ -159,5 +160,253 @@ theorem no_text_reply_is_read (nbl : Option Nat) (st : RState) (text rest : Byte
 /-- non-vacuity -/
 example : (parseError (some (sb "(QUOTA/MAXSIZE) \"Quota \\\"x\\\" exceeded\"")) default).toOption.map
     (fun s => (s.errcode, s.errmsg)) = some (sb "QUOTA/MAXSIZE", sb "Quota \"x\" exceeded") := by decide
+
+/-! ## the reply grammar as a whole
+
+`NoReply` is a status reply in the abstract: an optional response code and an optional human-readable text, the text
+sent as a quoted string or as a literal.  `every_no_reply_is_decoded` and `every_ok_reply_is_read` cover all twelve
+shapes at once, for every code (a non-empty atom), every text (any octets as a literal; no LF when quoted, which is
+what makes a text quotable), every split of the bytes between buffer and socket and every recv schedule. -/
+
+open Reader Client ReplyDecode ReplyLine ReplyGrammar
+
+/-- the human-readable text of a status reply, as a server may send it -/
+inductive TextForm where
+  | quoted (t : Bytes)
+  | literal (t : Bytes)
+  deriving Repr
+
+def TextForm.value : TextForm → Bytes
+  | .quoted t => t
+  | .literal t => t
+
+/-- a `NO` reply in the abstract: optional response code, optional text -/
+structure NoReply where
+  code : Option Bytes
+  text : Option TextForm
+
+/-- what is admitted: a code is a non-empty atom; a quoted text holds no LF (it could not be quoted otherwise) -/
+def NoReply.WF (r : NoReply) : Prop :=
+  (∀ c, r.code = some c → c ≠ [] ∧ ∀ x ∈ c, isAtomByte x = true) ∧
+  (∀ t, r.text = some (.quoted t) → NoLF t)
+
+/-- the line after `NO` (without CRLF) -/
+def NoReply.tail (r : NoReply) : Bytes :=
+  (match r.code with | some c => 40 :: (c ++ [41]) | none => []) ++
+  (match r.code, r.text with | some _, some _ => [32] | _, _ => []) ++
+  (match r.text with
+   | some (.quoted t) => 34 :: (escapeQ t ++ [34])
+   | some (.literal t) => 123 :: (B.natToDec t.length ++ [125])
+   | none => [])
+
+/-- what follows the status line on the wire: the octets of a literal text and their CRLF -/
+def NoReply.after (r : NoReply) : Bytes :=
+  match r.text with
+  | some (.literal t) => t ++ [13, 10]
+  | _ => []
+
+/-- the whole reply on the wire -/
+def NoReply.wire (r : NoReply) : Bytes :=
+  (if r.tail.isEmpty then [78, 79] else 78 :: 79 :: 32 :: r.tail) ++ 13 :: 10 :: r.after
+
+/-- **every `NO` reply is decoded to what it says**: whatever combination of response code and text, the text quoted
+    or sent as a literal, the call's error code and message are exactly the reply's, and exactly the reply is consumed -/
+theorem every_no_reply_is_decoded (nbl : Option Nat) (st : RState) (r : NoReply) (hw : r.WF) (rest : Bytes)
+    (hp : pending st = r.wire ++ rest) :
+    ∃ st' d, readResponse nbl st = .ok (⟨some .NO, d, []⟩, st') ∧ pending st' = rest ∧
+      st'.errcode = r.code.getD [] ∧ st'.errmsg = (r.text.map TextForm.value).getD [] := by
+  obtain ⟨code, text⟩ := r
+  obtain ⟨hwc, hwt⟩ := hw
+  cases code with
+  | none =>
+    cases text with
+    | none =>
+      obtain ⟨st', h1, h2, h3, h4⟩ := bare_no_reply_is_read nbl st rest (by
+        have : pending st = 78 :: 79 :: 13 :: 10 :: rest := by simpa [NoReply.wire, NoReply.tail, NoReply.after] using hp
+        rw [this]; rfl)
+      exact ⟨st', none, h1, h2, h3, h4⟩
+    | some tf =>
+      cases tf with
+      | quoted t =>
+        obtain ⟨st', h1, h2, h3, h4⟩ := no_text_reply_is_read nbl st t rest (hwt t rfl)
+          (by simpa [NoReply.wire, NoReply.tail, NoReply.after] using hp)
+        exact ⟨st', _, h1, h2, h3, h4⟩
+      | literal t =>
+        obtain ⟨hd1, hd2, hd3⟩ := Codec.natToDec_spec t.length
+        obtain ⟨st1, hp1, hgen⟩ := no_reply_general nbl st 123 (B.natToDec t.length ++ [125]) (t ++ 13 :: 10 :: rest)
+          (by simpa [NoReply.wire, NoReply.tail, NoReply.after] using hp) (by decide)
+          (by
+            intro x hx
+            simp only [List.mem_cons, List.mem_append, List.not_mem_nil, or_false] at hx
+            rcases hx with rfl | hx | rfl
+            · decide
+            · exact natToDec_noLF _ x hx
+            · decide)
+        obtain ⟨st2, hpe, hc2, hm2, hp2⟩ := parseError_literal_text_only t rest (B.natToDec t.length) st1 hd1 hd2 hd3 hp1
+        exact ⟨st2, _, hgen st2 hpe, hp2, hc2, hm2⟩
+  | some c =>
+    obtain ⟨hne, hatom⟩ := hwc c rfl
+    cases text with
+    | none =>
+      obtain ⟨st1, hp1, hgen⟩ := no_reply_general nbl st 40 (c ++ [41]) rest
+        (by simpa [NoReply.wire, NoReply.tail, NoReply.after] using hp) (by decide)
+        (by
+          intro x hx
+          simp only [List.mem_cons, List.mem_append, List.not_mem_nil, or_false] at hx
+          rcases hx with rfl | hx | rfl
+          · decide
+          · exact atom_noLF c hatom x hx
+          · decide)
+      have hpe := parseError_code_only c st1 hne hatom
+      exact ⟨_, _, hgen _ hpe, hp1, rfl, rfl⟩
+    | some tf =>
+      cases tf with
+      | quoted t =>
+        obtain ⟨st', h1, h2, h3, h4⟩ := no_code_text_reply_is_read nbl st c t rest hne hatom (hwt t rfl)
+          (by simpa [NoReply.wire, NoReply.tail, NoReply.after] using hp)
+        exact ⟨st', _, h1, h2, h3, h4⟩
+      | literal t =>
+        obtain ⟨hd1, hd2, hd3⟩ := Codec.natToDec_spec t.length
+        obtain ⟨st1, hp1, hgen⟩ := no_reply_general nbl st 40 (c ++ 41 :: 32 :: (123 :: (B.natToDec t.length ++ [125])))
+          (t ++ 13 :: 10 :: rest)
+          (by simpa [NoReply.wire, NoReply.tail, NoReply.after] using hp) (by decide)
+          (by
+            intro x hx
+            simp only [List.mem_cons, List.mem_append, List.not_mem_nil, or_false] at hx
+            rcases hx with rfl | hx | rfl | rfl | rfl | hx | rfl
+            · decide
+            · exact atom_noLF c hatom x hx
+            · decide
+            · decide
+            · decide
+            · exact natToDec_noLF _ x hx
+            · decide)
+        obtain ⟨st2, hpe, hc2, hm2, hp2⟩ := parseError_code_and_literal_text c t rest (B.natToDec t.length) st1 hne hatom hd1 hd2 hd3 hp1
+        exact ⟨st2, _, hgen st2 hpe, hp2, hc2, hm2⟩
+
+/-- the whole `OK` reply on the wire -/
+def NoReply.okWire (r : NoReply) : Bytes :=
+  (if r.tail.isEmpty then [79, 75] else 79 :: 75 :: 32 :: r.tail) ++ 13 :: 10 :: r.after
+
+/-- **every `OK` reply is read as OK**: with or without response code (`(WARNINGS)`, `(TAG "…")`-less atoms), with or
+    without text, the text quoted or sent as a literal — the status is OK, exactly the reply is consumed (literal text and
+    its CRLF included), and the error fields of the client are left alone -/
+theorem every_ok_reply_is_read (nbl : Option Nat) (st : RState) (r : NoReply) (hw : r.WF) (rest : Bytes)
+    (hp : pending st = r.okWire ++ rest) :
+    ∃ st' d, readResponse nbl st = .ok (⟨some .OK, d, []⟩, st') ∧ pending st' = rest ∧
+      st'.errcode = st.errcode ∧ st'.errmsg = st.errmsg := by
+  obtain ⟨code, text⟩ := r
+  obtain ⟨hwc, hwt⟩ := hw
+  -- the two generic shapes
+  have plain : ∀ (c : UInt8) (t : Bytes) (b : UInt8), B.isWs c = false → NoLF (c :: t) → (c :: t).getLast? = some b →
+      b ≠ 125 ∧ b ≠ 10 → pending st = 79 :: 75 :: 32 :: (c :: t) ++ 13 :: 10 :: rest →
+      ∃ st' d, readResponse nbl st = .ok (⟨some .OK, d, []⟩, st') ∧ pending st' = rest ∧
+        st'.errcode = st.errcode ∧ st'.errmsg = st.errmsg := by
+    intro c t b hws hlf hlast hb hpp
+    obtain ⟨st1, h1, h2, h3, h4⟩ := readLine_ok st (79 :: 75 :: 32 :: c :: t) rest (some (c :: t)) hpp (noLF_ok_line _ hlf)
+      (by simp) rfl (respMatch_ok (c :: t) c t rfl hws hlf) (trailingSize_none_of_last _ b hlast hb)
+    exact ⟨st1, _, readResponse_status nbl st st1 .OK _ h1, h2, h3, h4⟩
+  have lit : ∀ (c : UInt8) (t txt : Bytes), B.isWs c = false → NoLF (c :: t) → trailingSize (c :: t) = some txt.length →
+      pending st = 79 :: 75 :: 32 :: (c :: t) ++ 13 :: 10 :: (txt ++ 13 :: 10 :: rest) →
+      ∃ st' d, readResponse nbl st = .ok (⟨some .OK, d, []⟩, st') ∧ pending st' = rest ∧
+        st'.errcode = st.errcode ∧ st'.errmsg = st.errmsg := by
+    intro c t txt hws hlf hts hpp
+    obtain ⟨st2, h1, h2, h3, h4⟩ := readLine_ok_literal st (79 :: 75 :: 32 :: c :: t) txt rest (some (c :: t)) hpp
+      (noLF_ok_line _ hlf) (by simp) rfl (respMatch_ok (c :: t) c t rfl hws hlf) hts
+    exact ⟨st2, _, readResponse_status nbl st st2 .OK _ h1, h2, h3, h4⟩
+  cases code with
+  | none =>
+    cases text with
+    | none =>
+      obtain ⟨st', h1, h2, h3, h4⟩ := ok_reply_is_read nbl st rest (by
+        have : pending st = 79 :: 75 :: 13 :: 10 :: rest := by simpa [NoReply.okWire, NoReply.tail, NoReply.after] using hp
+        rw [this]; rfl)
+      exact ⟨st', none, h1, h2, h3, h4⟩
+    | some tf =>
+      cases tf with
+      | quoted t =>
+        refine plain 34 (escapeQ t ++ [34]) 34 (by decide) ?_ (last_of_snoc _ (34 :: escapeQ t) 34 (by simp)) (by decide)
+          (by simpa [NoReply.okWire, NoReply.tail, NoReply.after] using hp)
+        intro x hx
+        simp only [List.mem_cons, List.mem_append, List.not_mem_nil, or_false] at hx
+        rcases hx with rfl | hx | rfl
+        · decide
+        · exact escapeQ_noLF t (hwt t rfl) x hx
+        · decide
+      | literal t =>
+        obtain ⟨hd1, hd2, hd3⟩ := Codec.natToDec_spec t.length
+        refine lit 123 (B.natToDec t.length ++ [125]) t (by decide) ?_ ?_
+          (by simpa [NoReply.okWire, NoReply.tail, NoReply.after] using hp)
+        · intro x hx
+          simp only [List.mem_cons, List.mem_append, List.not_mem_nil, or_false] at hx
+          rcases hx with rfl | hx | rfl
+          · decide
+          · exact natToDec_noLF _ x hx
+          · decide
+        · unfold trailingSize
+          have : trailingSize.sizeMatchFull (123 :: (B.natToDec t.length ++ [125])) = some t.length := by
+            unfold trailingSize.sizeMatchFull
+            have hk := spanLen_digits_append (B.natToDec t.length) 125 [] hd2 (by decide)
+            have hpos : ((B.natToDec t.length).length == 0) = false := by
+              cases hh : B.natToDec t.length with
+              | nil => exact absurd hh hd1
+              | cons _ _ => simp
+            simp only [hk, hpos, Bool.false_eq_true, if_false, List.drop_left, List.take_left, hd3]
+          simp [this]
+  | some c =>
+    obtain ⟨hne, hatom⟩ := hwc c rfl
+    cases text with
+    | none =>
+      refine plain 40 (c ++ [41]) 41 (by decide) ?_ (last_of_snoc _ (40 :: c) 41 (by simp)) (by decide)
+        (by simpa [NoReply.okWire, NoReply.tail, NoReply.after] using hp)
+      intro x hx
+      simp only [List.mem_cons, List.mem_append, List.not_mem_nil, or_false] at hx
+      rcases hx with rfl | hx | rfl
+      · decide
+      · exact atom_noLF c hatom x hx
+      · decide
+    | some tf =>
+      cases tf with
+      | quoted t =>
+        refine plain 40 (c ++ 41 :: 32 :: 34 :: (escapeQ t ++ [34])) 34 (by decide) ?_
+          (last_of_snoc _ (40 :: (c ++ 41 :: 32 :: 34 :: escapeQ t)) 34 (by simp)) (by decide)
+          (by simpa [NoReply.okWire, NoReply.tail, NoReply.after] using hp)
+        intro x hx
+        simp only [List.mem_cons, List.mem_append, List.not_mem_nil, or_false] at hx
+        rcases hx with rfl | hx | rfl | rfl | rfl | hx | rfl
+        · decide
+        · exact atom_noLF c hatom x hx
+        · decide
+        · decide
+        · decide
+        · exact escapeQ_noLF t (hwt t rfl) x hx
+        · decide
+      | literal t =>
+        obtain ⟨hd1, hd2, hd3⟩ := Codec.natToDec_spec t.length
+        refine lit 40 (c ++ 41 :: 32 :: (123 :: (B.natToDec t.length ++ [125]))) t (by decide) ?_ ?_
+          (by simpa [NoReply.okWire, NoReply.tail, NoReply.after] using hp)
+        · intro x hx
+          simp only [List.mem_cons, List.mem_append, List.not_mem_nil, or_false] at hx
+          rcases hx with rfl | hx | rfl | rfl | rfl | hx | rfl
+          · decide
+          · exact atom_noLF c hatom x hx
+          · decide
+          · decide
+          · decide
+          · exact natToDec_noLF _ x hx
+          · decide
+        · rw [trailingSize_code_literal c (B.natToDec t.length) hd1 hd2, hd3]
+
+/-- non-vacuity: a reply with a hierarchical code and a two-line literal text, and what it looks like on the wire -/
+example : (⟨some (sb "QUOTA/MAXSIZE"), some (.literal (sb "a\r\nb"))⟩ : NoReply).wire = sb "NO (QUOTA/MAXSIZE) {4}\r\na\r\nb\r\n" := by
+  decide +kernel
+
+example : (⟨some (sb "QUOTA/MAXSIZE"), some (.literal (sb "a\r\nb"))⟩ : NoReply).WF := by
+  refine ⟨?_, ?_⟩
+  · intro c hc
+    have : c = sb "QUOTA/MAXSIZE" := (Option.some.inj hc).symm
+    subst this
+    exact ⟨by decide, by decide⟩
+  · intro t ht; cases ht
 
 end C09
